@@ -35,6 +35,9 @@ func (c03) Gen(r *Rng, tier string, run int) *Trace {
 	cap := 0
 	if r.Bool(0.85) {
 		cap = r.Range(1, 5)
+		if r.Bool(0.1) {
+			cap = r.Range(6, 10)
+		}
 	}
 	s0 := g.addStack(g.kind(), cap)
 	s1 := g.addStack(g.kind(), 0)
@@ -48,7 +51,7 @@ func (c03) Gen(r *Rng, tier string, run int) *Trace {
 	if r.Bool(0.2) {
 		g.emit(Op{Obj: s1, M: "SetFIFO", Args: []Val{vBool(true)}}, true)
 	}
-	all := []string{"Push", "Push", "Insert", "Transfer", "Marshal", "Pop", "Remove", "Reset", "PushSrc", "PopSrc"}
+	all := []string{"Push", "Push", "Insert", "Transfer", "Marshal", "Pop", "Remove", "Reset", "PushSrc", "PopSrc", "SetFIFO"}
 	var alpha []string
 	for _, m := range all {
 		if r.Bool(0.6) {
@@ -99,6 +102,8 @@ func (c03) Gen(r *Rng, tier string, run int) *Trace {
 			g.emit(op, false)
 		case "PopSrc":
 			g.emit(Op{Obj: s1, M: "Pop"}, false)
+		case "SetFIFO":
+			g.emit(Op{Obj: []int{s0, s1}[r.Intn(2)], M: "SetFIFO", Args: []Val{vBool(true)}}, false)
 		}
 	}
 	return g.tr
